@@ -28,6 +28,25 @@ theorem filter_stillMatches_matching (T : Table) (cond : Cond) :
   intro i hi
   exact stillMatches_iff.2 hi
 
+/-- the ids of a scan result are the matching rows -/
+theorem txScan_ids (T : Table) (cond : Cond) : (txScan T cond).map (·.1) = matching T cond := by
+  unfold txScan scanAnswer
+  have key : ∀ l : List Nat, (∀ i ∈ l, ∃ r, T.rows[i]? = some r) →
+      (l.filterMap fun i => (T.rows[i]?).map fun r => (i, r.vals)).map (·.1) = l := by
+    intro l
+    induction l with
+    | nil => intro _; rfl
+    | cons i rest ih =>
+      intro h
+      obtain ⟨r, hr⟩ := h i List.mem_cons_self
+      rw [List.filterMap_cons, hr]
+      simp only [Option.map_some, List.map_cons]
+      rw [ih (fun j hj => h j (List.mem_cons_of_mem _ hj))]
+  apply key
+  intro i hi
+  obtain ⟨r, hr, _⟩ := mem_matching.1 hi
+  exact ⟨r, hr⟩
+
 /-- run right after its own scan, the repaired second half IS the atomic statement -/
 theorem txUpdateApplyFixed_after_own_scan {s : State} {A t : Nat} {cond : Cond} {upd : List (Nat × Val)} {T : Table}
     (hg : gate s A = none) (hT : s.tables t = some T) (hu : updBad T upd = false) :
@@ -102,6 +121,98 @@ theorem stepOK_txDeleteApplyFixed {s : State} (h : Inv s) {A t : Nat} {x : Tx} {
       refine stepOK_of_fold h hx rfl rfl (foldl_deleteRow_locks A t _ _).2.2.2.2 ?_ hf
       intro B hB
       exact gone_foldl (fun s i tx hg => gone_deleteRow hg A t i) _ (gone_lockAll hB A t ids)
+
+/-! ## the transaction records under the per-row bodies -/
+
+theorem recordUndo_txs_other (s : State) {tx B : Nat} (u : Undo) (hne : B ≠ tx) : (recordUndo s tx u).txs B = s.txs B := by
+  unfold recordUndo
+  split
+  · simp [hne]
+  · rfl
+
+theorem recordUndo_txs_self (s : State) {tx : Nat} {x : Tx} (u : Undo) (hx : s.txs tx = some x) :
+    (recordUndo s tx u).txs tx = some { x with undo := x.undo ++ [u] } := by
+  unfold recordUndo
+  rw [hx]
+  simp
+
+/-- a fold of a per-row body that only ever calls `recordUndo tx` and `setTable`: every other record is
+    untouched, the actor's record keeps its phase and start time and its log only grows -/
+theorem foldl_rows_txs {f : State → Nat → State} {A : Nat}
+    (hf : ∀ s i, (∀ B, B ≠ A → (f s i).txs B = s.txs B) ∧
+      (∀ x, s.txs A = some x → ∃ more, (f s i).txs A = some { x with undo := x.undo ++ more }))
+    (rows : List Nat) (s : State) :
+    (∀ B, B ≠ A → (rows.foldl f s).txs B = s.txs B) ∧
+    (∀ x, s.txs A = some x → ∃ more, (rows.foldl f s).txs A = some { x with undo := x.undo ++ more }) := by
+  induction rows generalizing s with
+  | nil => exact ⟨fun _ _ => rfl, fun x hx => ⟨[], by simpa using hx⟩⟩
+  | cons i rest ih =>
+    simp only [List.foldl_cons]
+    have h1 := hf s i
+    have h2 := ih (f s i)
+    refine ⟨fun B hB => (h2.1 B hB).trans (h1.1 B hB), ?_⟩
+    intro x hx
+    obtain ⟨m1, hm1⟩ := h1.2 x hx
+    obtain ⟨m2, hm2⟩ := h2.2 _ hm1
+    exact ⟨m1 ++ m2, by rw [hm2]; simp [List.append_assoc]⟩
+
+theorem updateRow_txs (A t : Nat) (upd : List (Nat × Val)) (s : State) (i : Nat) :
+    (∀ B, B ≠ A → (updateRow A t upd s i).txs B = s.txs B) ∧
+    (∀ x, s.txs A = some x → ∃ more, (updateRow A t upd s i).txs A = some { x with undo := x.undo ++ more }) := by
+  unfold updateRow
+  split
+  · exact ⟨fun _ _ => rfl, fun x hx => ⟨[], by simpa using hx⟩⟩
+  · split
+    · exact ⟨fun _ _ => rfl, fun x hx => ⟨[], by simpa using hx⟩⟩
+    · refine ⟨fun B hB => by simp only [setTable_txs]; exact recordUndo_txs_other s _ hB, ?_⟩
+      intro x hx
+      exact ⟨[_], by simp only [setTable_txs]; exact recordUndo_txs_self s _ hx⟩
+
+theorem deleteRow_txs (A t : Nat) (s : State) (i : Nat) :
+    (∀ B, B ≠ A → (deleteRow A t s i).txs B = s.txs B) ∧
+    (∀ x, s.txs A = some x → ∃ more, (deleteRow A t s i).txs A = some { x with undo := x.undo ++ more }) := by
+  unfold deleteRow
+  split
+  · exact ⟨fun _ _ => rfl, fun x hx => ⟨[], by simpa using hx⟩⟩
+  · split
+    · exact ⟨fun _ _ => rfl, fun x hx => ⟨[], by simpa using hx⟩⟩
+    · refine ⟨fun B hB => by simp only [setTable_txs]; exact recordUndo_txs_other s _ hB, ?_⟩
+      intro x hx
+      exact ⟨[_], by simp only [setTable_txs]; exact recordUndo_txs_self s _ hx⟩
+
+/-- the repaired second halves never touch another transaction's record, and the actor's record keeps its
+    phase (so it stays usable) while its log grows -/
+theorem applyFixed_txs (s : State) (A t : Nat) (cond : Cond) (ids : List Nat) :
+    (∀ upd, (∀ B, B ≠ A → (txUpdateApplyFixed s A t cond ids upd).1.txs B = s.txs B) ∧
+      (∀ x, s.txs A = some x → ∃ more, (txUpdateApplyFixed s A t cond ids upd).1.txs A = some { x with undo := x.undo ++ more })) ∧
+    ((∀ B, B ≠ A → (txDeleteApplyFixed s A t cond ids).1.txs B = s.txs B) ∧
+      (∀ x, s.txs A = some x → ∃ more, (txDeleteApplyFixed s A t cond ids).1.txs A = some { x with undo := x.undo ++ more })) := by
+  have base : ∀ (s1 : State), s1.txs = s.txs → ∀ (f : State → Nat → State),
+      (∀ s i, (∀ B, B ≠ A → (f s i).txs B = s.txs B) ∧
+        (∀ x, s.txs A = some x → ∃ more, (f s i).txs A = some { x with undo := x.undo ++ more })) →
+      ∀ rows : List Nat, (∀ B, B ≠ A → (rows.foldl f s1).txs B = s.txs B) ∧
+        (∀ x, s.txs A = some x → ∃ more, (rows.foldl f s1).txs A = some { x with undo := x.undo ++ more }) := by
+    intro s1 h1 f hf rows
+    have := foldl_rows_txs hf rows s1
+    rw [h1] at this
+    exact this
+  have same : (∀ B, B ≠ A → s.txs B = s.txs B) ∧
+      (∀ x, s.txs A = some x → ∃ more, s.txs A = some { x with undo := x.undo ++ more }) :=
+    ⟨fun _ _ => rfl, fun x hx => ⟨[], by simpa using hx⟩⟩
+  refine ⟨?_, ?_⟩
+  · intro upd
+    unfold txUpdateApplyFixed
+    split
+    · exact same
+    · split
+      · exact same
+      · exact base _ (by split <;> rfl) _ (updateRow_txs A t upd) _
+  · unfold txDeleteApplyFixed
+    split
+    · exact same
+    · split
+      · exact same
+      · exact base _ (by split <;> rfl) _ (deleteRow_txs A t) _
 
 /-- what `StepOK` by `A` means for rollbacks: `A`'s rollback after the step restores, row by row, the
     live image `A`'s rollback before the step would have restored -/
